@@ -1,7 +1,8 @@
 /* C18: ECDH.  hash: 0 = NULL (default), 1 = secp256k1_ecdh_hash_function_sha256, 2 = secp256k1_ecdh_hash_function_default,
  * 3 = a caller-supplied callback writing x || y (64 bytes), 4 = a caller-supplied callback that fails. */
 static int vh_ecdh_hash_xy(unsigned char *output, const unsigned char *x32, const unsigned char *y32, void *data) {
-    (void)data; memcpy(output, x32, 32); memcpy(output + 32, y32, 32); return 1;
+    unsigned char t[64]; (void)data;      /* writes its output before it has finished reading its (const) inputs: legal for a caller's hash */
+    memset(output, 0xEE, 64); memcpy(t, x32, 32); memcpy(t + 32, y32, 32); memcpy(output, t, 64); return 1;
 }
 static int vh_ecdh_hash_fail(unsigned char *output, const unsigned char *x32, const unsigned char *y32, void *data) {
     (void)output; (void)x32; (void)y32; (void)data; return 0;
